@@ -49,6 +49,11 @@ def extra_C11(tier, seed, scratch, cfg, out):
                                  "finding": {"line": line, "with_reopen": x[:1500], "never_closed": y[:1500],
                                              "reason": "an index that was closed and reopened answers differently from one that was never closed"}})
                     break
+            if not again[-1][0].startswith("T="):
+                hits.append({"kind": "reopen-changes-behaviour", "lines": lines + ["dump"],
+                             "finding": {"line": "dump", "with_reopen": again[-1][0][:300], "never_closed": plain[-1][0][:300],
+                                         "reason": "the stores of the reopened index cannot be read back"}})
+                break
             tl, ll = _image_lengths(again[-1][0])
             if tl % 128 or ll % 16:
                 hits.append({"kind": "partial-block", "lines": lines, "finding": {"reason": "file is not a whole number of blocks", "trie": tl, "links": ll}})
@@ -148,7 +153,7 @@ def extra_C15(tier, seed, scratch, cfg, out):
                 for b in range(0, size, 128):
                     mapped += 1
                     x, y = mm.read(b), st.read(b)
-                    if bytes(x) != bytes(y):
+                    if x is None or y is None or bytes(x) != bytes(y):
                         hits.append({"kind": "mmap-differs", "lines": ses.lines, "finding": {"block": b, "reason": "map().read differs from file read"}})
                         break
                     if b >= 128:
